@@ -1,5 +1,5 @@
 import Wl2kVerif.B2F.Proc
-import Wl2kVerif.B2F.Wire
+import Wl2kVerif.B2F.Checked
 import Wl2kVerif.B2F.Handshake
 import Wl2kVerif.Lzhuf.Reader
 /-
@@ -66,12 +66,15 @@ def readString (delim : UInt8) : Nat → Bytes → Proc (Bytes × Bool)
 def nextLineRemoteErr (parseErr : Bool) (fuel : Nat) : Proc (Except SErr Bytes) := do
   let (line, eof) ← readString 13 fuel []
   if eof then return .error .eof
-  let line := cleanString line
-  if parseErr then
-    match errLine line with
-    | some m => return .error (.remote m)
-    | none => return .ok line
-  else return .ok line
+  match cleanStringC line with
+  | none => .panic "cleanString"
+  | some line =>
+    if parseErr then
+      match errLineC line with
+      | none => .panic "errLine"
+      | some (some m) => return .error (.remote m)
+      | some none => return .ok line
+    else return .ok line
 
 def nextLine (fuel : Nat) : Proc (Except SErr Bytes) := nextLineRemoteErr true fuel
 
@@ -100,12 +103,15 @@ def readHandshake (master : Bool) (fuel : Nat) : Nat → HsData → Proc (Except
               if !containsSub sid (sb "B2") then return .error (.proto "no-fb2")
               else readHandshake master fuel n { data with sid := sid }
           else if (sb ";FW").isPrefixOf line then
-            match parseFW line with
-            | none => return .error (.proto "malformed-fw")
-            | some fw => readHandshake master fuel n { data with fw := fw }
+            match parseFWC line with
+            | none => .panic "parseFW"
+            | some none => return .error (.proto "malformed-fw")
+            | some (some fw) => readHandshake master fuel n { data with fw := fw }
           else if (sb ";PQ").isPrefixOf line then
-            if line.length < 5 then return .error (.proto "malformed-pq")
-            else readHandshake master fuel n { data with challenge := line.drop 5 }
+            match challengeC line with
+            | none => .panic "secure-challenge"
+            | some none => return .error (.proto "malformed-pq")
+            | some (some ch) => readHandshake master fuel n { data with challenge := ch }
           else if line.getLast? = some 62 then return .ok data
           else readHandshake master fuel n data
 
@@ -203,11 +209,13 @@ def writeBlocks : List Bytes → Proc Unit
 def writeCompressed (c : Cfg) (p : Proposal) : Proc (Except SErr Unit) :=
   .write (frameHeader p.qtitle p.offset) (
     if p.csize < 6 then .ret (.error (.proto "invalid-compressed-data"))
-    else if p.offset < 0 ∨ p.offset > p.cdata.length then .ret (.error (.proto "offset-outside-message"))
     else
-      let d := p.cdata.drop p.offset.toNat
-      Proc.bind (writeBlocks (frameBlocks c.maxMsgLen d)) fun _ =>
-        .write (frameTrailer d) (.ret (.ok ())))
+      match payloadFromC p.cdata p.offset with
+      | none => .panic "compressedData[offset:]"
+      | some none => .ret (.error (.proto "offset-outside-message"))
+      | some (some d) =>
+        Proc.bind (writeBlocks (frameBlocks c.maxMsgLen d)) fun _ =>
+          .write (frameTrailer d) (.ret (.ok ())))
 
 /-- the reply loop of `sendOutbound` -/
 def awaitAnswer (fuel : Nat) : Nat → Proc (Except SErr Bytes)
@@ -243,9 +251,10 @@ def sendOutbound (c : Cfg) (fuel : Nat) (outbound : List Proposal) : Proc (Excep
   match ← awaitAnswer fuel fuel with
   | .error e => return .error e
   | .ok reply =>
-    match parseProposalAnswer c.offsetLimit reply outbound.length with
-    | none => return .error (.proto "unable-to-parse-proposal-answer")
-    | some ans =>
+    match parseProposalAnswerC c.offsetLimit reply outbound.length with
+    | none => .panic "parseProposalAnswer"
+    | some none => return .error (.proto "unable-to-parse-proposal-answer")
+    | some (some ans) =>
       let props := (outbound.zip ans).map fun (p, a) => { p with answer := a.1, offset := a.2 }
       transferAll c props []
 
@@ -381,13 +390,14 @@ def readCompressed (fuel : Nat) (p : Proposal) : Proc (Except SErr Bytes) :=
           if eof then return .error .eof
           let (off, eof) ← readString 0 fuel []
           if eof then return .error .eof
-          let title := title.dropLast
-          let off := off.dropLast
-          if hl.toNat ≠ title.length + off.length + 2 then return .error (.proto "header-length-mismatch")
-          let (offset, bad) := atoi off
-          if bad then return .error (.proto "offset-not-an-integer")
-          if offset ≠ p.offset then return .error (.proto "unexpected-offset")
-          readBlocks p.csize fuel [] 0
+          match stripDelimC title, stripDelimC off with
+          | some title, some off =>
+            if hl.toNat ≠ title.length + off.length + 2 then return .error (.proto "header-length-mismatch")
+            let (offset, bad) := atoi off
+            if bad then return .error (.proto "offset-not-an-integer")
+            if offset ≠ p.offset then return .error (.proto "unexpected-offset")
+            readBlocks p.csize fuel [] 0
+          | _, _ => .panic "title[:len-1]"
 
 /-- the "fetch and decompress accepted" loop of `handleInbound`; the state (traffic statistics) so far
 is returned also when it fails -/
@@ -424,17 +434,23 @@ def inboundLoop (c : Cfg) (fuel : Nat) : Nat → List Proposal → Nat → SStat
       else if line.isEmpty ∨ line.head? = some 59 then inboundLoop c fuel n props sum st
       else if line.length < 2 ∨ line.head? ≠ some 70 then return .error (.proto "unexpected-protocol-line")
       else
-        let cmd := line.getD 1 0
+        match cmdByteC line with
+        | none => .panic "line[:2]"
+        | some cmd =>
         if cmd = 65 ∨ cmd = 66 ∨ cmd = 67 ∨ cmd = 68 then
-          match parseProposal line with
-          | none => return .error (.proto "unable-to-parse-proposal")
-          | some f =>
+          match parseProposalC line with
+          | none => .panic "parseProposal"
+          | some none => return .error (.proto "unable-to-parse-proposal")
+          | some (some f) =>
             let p : Proposal := { code := f.code, msgType := f.msgType, mid := f.mid, size := f.size, csize := f.csize }
             inboundLoop c fuel n (props ++ [p]) (sum + lineSum line) st
         else if cmd = 70 then return .ok (false, props, { st with remoteNoMsgs := true })
         else if cmd = 81 then return .ok (true, props, st)
         else if cmd = 62 then
-          let their := (parseHex64 (trimSpaceU (line.drop 2))).1
+          match promptFieldC line with
+          | none => .panic "line[2:]"
+          | some field =>
+          let their := (parseHex64 (trimSpaceU field)).1
           if their ≠ (negMod256 sum : Int) then return .error (.proto "checksum-error")
           else if props.isEmpty then return .ok (false, [], { st with remoteNoMsgs := true })
           else do
